@@ -130,6 +130,10 @@ func runCase(c *h.Ctx, ops []string) {
 	for _, op := range ops {
 		f := strings.Fields(op)
 		out := "bad-op"
+		opSuffix := ""
+		if f[0] == "reopen" {
+			op = "reopen" // a replayed line may carry an oracle suffix: recompute it
+		}
 		p, pv := h.Try(func() {
 			switch f[0] {
 			case "cfg":
@@ -206,6 +210,22 @@ func runCase(c *h.Ctx, ops []string) {
 					out = "err:" + strings.ReplaceAll(err.Error(), " ", "_")
 				} else {
 					out = "ok"
+					// oracle for the model: per series the max time of the m-mapped chunks found at start-up
+					mm := tsdb.VerifMmMaxTimes(e.db.Head())
+					var parts []string
+					for k, v := range mm {
+						if i := strings.Index(k, `s="`); i >= 0 {
+							idx := k[i+3:]
+							idx = idx[:strings.IndexByte(idx, '"')]
+							parts = append(parts, fmt.Sprintf("%s:%d", idx, v))
+						}
+					}
+					sort.Strings(parts)
+					if len(parts) == 0 {
+						opSuffix = " -"
+					} else {
+						opSuffix = " " + strings.Join(parts, ",")
+					}
 				}
 			case "q":
 				mint, _ := strconv.ParseInt(f[1], 10, 64)
@@ -231,7 +251,7 @@ func runCase(c *h.Ctx, ops []string) {
 			c.Count("panic")
 		}
 		c.Count("op:" + f[0])
-		c.Op(op, out)
+		c.Op(op+opSuffix, out)
 	}
 }
 
